@@ -15,8 +15,11 @@ VARIABLES l,
           qattr,   \* payload id -> what the document satisfies (query atoms, ACL metadata), registered by put events
           qhist,   \* query id -> the table it was first answered on and the answer (C28: same answers after reopen / doctor)
           cmem,    \* explicit memory cards in the handle's track (put_memory_card)
-          cdisk    \* explicit memory cards persisted by the last commit
-tvars == <<vars, l, prev, qattr, qhist, cmem, cdisk>>
+          cdisk,   \* explicit memory cards persisted by the last commit
+          mmem,    \* the logic mesh in the handle (add_mesh_node / add_mesh_edge)
+          mdisk    \* the logic mesh persisted by the last commit
+tvars == <<vars, l, prev, qattr, qhist, cmem, cdisk, mmem, mdisk>>
+MT == INSTANCE MeshTrack WITH MaxOps <- 0, mesh <- 0, n <- 0
 CT == INSTANCE CardsTrack WITH MaxCards <- 0, Times <- {}, c <- 0
 MQ == INSTANCE Mv2Query
 Snap == [exists |-> exists, frames |-> frames, pend |-> pend, tseq |-> ticket.seq, tdseq |-> ticket.d.seq]
@@ -99,7 +102,7 @@ Matches == Chk("result", IF last'.res = "ok" THEN ResOk ELSE ResErr(last'.res))
 
 (* --------------------------------- events -------------------------------- *)
 TraceInit == l = 1 /\ Init /\ prev = [exists |-> "no", frames |-> <<>>, pend |-> <<>>, tseq |-> 0, tdseq |-> 0]
-             /\ qattr = EmptyMap /\ qhist = EmptyMap /\ cmem = <<>> /\ cdisk = <<>>
+             /\ qattr = EmptyMap /\ qhist = EmptyMap /\ cmem = <<>> /\ cdisk = <<>> /\ mmem = MT!Empty /\ mdisk = MT!Empty
 
 TReset == /\ IsEvent("reset")
           /\ exists' = "no" /\ frames' = <<>> /\ pend' = <<>>
@@ -453,6 +456,36 @@ TCards ==
      /\ Chk("card.queue", \A i \in 1..Len(v.queue) : v.queue[i] < Len(tab) /\ tab[v.queue[i] + 1].role = "doc")
   /\ Observed(Ev.obs)
 
+(* ------------------------------ logic mesh (C27) ------------------------------ *)
+TMeshPut ==
+  /\ l <= Len(Rec) /\ Ev.ev \in {"mesh_node", "mesh_edge"} /\ l' = l + 1 /\ exists # "broken" /\ Touch(Ev.ev) /\ ResOk /\ Observed(Ev.obs)
+TMesh ==
+  /\ IsEvent("mesh") /\ Read("mesh") /\ ResOk
+  /\ LET v == Ev.res.val
+         seenNodes == {[name |-> x.name, kind |-> x.kind, conf |-> x.conf, frames |-> SeqSet(x.frames), ments |-> SeqSet(x.ments)] : x \in SeqSet(v.nodes)}
+         seenEdges == {[from |-> x.from, to |-> x.to, link |-> x.link, conf |-> x.conf, frame |-> x.frame] : x \in SeqSet(v.edges)} IN
+     \* C27: the mesh is exactly what was added (and, after reopen, what the last commit persisted)
+     /\ Chk("mesh.nodes", seenNodes = MT!NodeSet(mmem) /\ v.node_count = Len(mmem.nodes) /\ Len(v.nodes) = v.node_count)
+     /\ Chk("mesh.edges", seenEdges = MT!EdgeSet(mmem) /\ v.edge_count = Len(mmem.edges) /\ Len(v.edges) = v.edge_count)
+     /\ Chk("mesh.ids", \A x \in SeqSet(v.nodes) : x.id_ok)
+  /\ Observed(Ev.obs)
+TocWritten == \/ (Ev.ev \in {"commit", "vacuum"} /\ ResOk)
+              \/ (Ev.ev = "close" /\ hdl = "rw")
+              \/ (Ev.ev \in {"put", "update", "delete"} /\ ResOk /\ pend' = <<>>)       \* automatic commit inside the call
+MMemNext == IF Ev.ev = "reset" THEN MT!Empty
+            ELSE IF Ev.ev = "mesh_node" /\ ResOk
+              THEN MT!MergeNode(mmem, [name |-> Ev.args.canon, kind |-> Ev.args.kind, conf |-> Ev.args.conf, frame |-> Ev.args.frame,
+                                        ment |-> <<Ev.args.frame, Ev.args.start, Ev.args.len>>])
+            ELSE IF Ev.ev = "mesh_edge" /\ ResOk
+              THEN MT!MergeEdge(mmem, [from |-> Ev.args.cfrom \o "|" \o Ev.args.fkind, to |-> Ev.args.cto \o "|" \o Ev.args.tkind,
+                                        link |-> Ev.args.link, conf |-> Ev.args.conf, frame |-> Ev.args.frame])
+            ELSE IF Ev.ev \in {"open", "open_ro"} /\ ResOk THEN mdisk
+            ELSE IF Ev.ev \in {"close", "abandon"} THEN MT!Empty
+            ELSE mmem
+MDiskNext == IF Ev.ev = "reset" THEN MT!Empty
+             ELSE IF TocWritten THEN mmem
+             ELSE mdisk
+
 CMemNext == IF Ev.ev = "reset" THEN <<>>
             ELSE IF Ev.ev = "card_put" /\ ResOk THEN Append(cmem, CardOf(Ev.args, Ev.res.val))
             ELSE IF Ev.ev \in {"open", "open_ro"} /\ ResOk THEN cdisk
@@ -481,9 +514,10 @@ TwinOk == Has(Ev, "twin") =>
             /\ (Ev.twin.fdigest # Ev.fdigest =>
                   IF "D23_bytes_differ" \in Defects THEN Dev("D23_bytes_differ") ELSE Chk("twin.bytes", FALSE))
 
-TraceNext == ((TraceStep \/ TSearch \/ TVSearch \/ TOtherSearch \/ TCardPut \/ TCardGet \/ TCards) /\ TwinOk
-              /\ prev' = Snap /\ qattr' = QAttrNext /\ qhist' = QHistNext /\ cmem' = CMemNext /\ cdisk' = CDiskNext)
-             \/ ((TCrash \/ TCorrupt) /\ UNCHANGED <<qattr, qhist, cmem, cdisk>>)
+TraceNext == ((TraceStep \/ TSearch \/ TVSearch \/ TOtherSearch \/ TCardPut \/ TCardGet \/ TCards \/ TMeshPut \/ TMesh) /\ TwinOk
+              /\ prev' = Snap /\ qattr' = QAttrNext /\ qhist' = QHistNext /\ cmem' = CMemNext /\ cdisk' = CDiskNext
+              /\ mmem' = MMemNext /\ mdisk' = MDiskNext)
+             \/ ((TCrash \/ TCorrupt) /\ UNCHANGED <<qattr, qhist, cmem, cdisk, mmem, mdisk>>)
 
 TraceSpec == TraceInit /\ [][TraceNext]_tvars
 
